@@ -512,6 +512,11 @@ def run(ctx):
             ('COSH', (1000,)), ('POWER', (10, 1000)), ('POWER', (0, -1)),
             ('POWER', (-8, 1 / 3)), ('FLOOR', (5, 0)),
             ('CEILING', (2.5, -1)), ('FLOOR', (2.5, -1)),
+            # positive number, negative significance, both tiny (their product
+            # underflows to -0.0)
+            ('CEILING', (2.5e-200, -1e-200)), ('FLOOR', (1e-162, -1e-162)),
+            ('FLOOR', (1e-300, -1e-30)), ('CEILING', (5e-324, -5e-324)),
+            ('CEILING', (1e308, -1e-308)), ('FLOOR', (1e-310, -2.0)),
         ]
         for fname, args in outside:
             R.both(fname, tuple(float(a) for a in args), 'error', 'domain',
